@@ -295,8 +295,8 @@ static void put_tols(Rng &rng, Line &l) {
 static void generate(Rng &rng, const Opts &o, std::vector<std::string> &lines) {
     long N = o.cases > 0 ? o.cases : (o.thorough() ? 900 : 150);
     // the 2x2 inputs of the counterexample theorems of Properties/C05g.lean
-    lines.push_back("cxs_bicgstab right 1 0 0 2 2 2 0 1 0 1 0 1 2 0 -1 0 1 1 0 id 2 1 0 0 1 2 0 0 0 0");
-    lines.push_back("cxs_gmres right 2 2 0 0 2 2 2 0 1 0 1 0 1 2 0 -1 0 1 1 0 id 2 1 0 0 1 2 0 0 0 0");
+    lines.push_back("cxs_bicgstab right 2 0 0 2 2 2 0 2 0 1 0 1 2 0 1 0 1 1 1 id 2 1 0 0 0 2 0 0 0 0");    // bicgstab_asfound_counterexample
+    lines.push_back("cxs_gmres right 2 2 0 0 2 2 2 0 2 0 1 0 1 2 0 1 0 1 1 1 id 2 1 0 0 0 2 0 0 0 0");
     // malformed stream: both sides must answer bad-input
     lines.push_back("cxs_cg 2 0 0 2 2 1 0 1 0 1 1 1 0 id 2 1 0 1 0 2 0 0 0");                    // half a complex number
     lines.push_back("cxs_cg 2 -1 0 1 1 1 0 1 0 id 1 1 0 1 0 0");                                 // negative tolerance
